@@ -109,10 +109,11 @@ def run(rep, tier):
             elif re.search(r"::is_active$", nm):
                 out.append(e)
         return out
-    helpers = {f.id for f in prog.fns.values() if "/kql/" in f.file and f.kind != "Closure" and state_checks(f)}
+    SCOPE = ("/kql/", "/projection/", "/meta/")
+    helpers = {f.id for f in prog.fns.values() if any(x in f.file for x in SCOPE) and f.kind != "Closure" and state_checks(f)}
     ninst = 0
     for f in prog.fns.values():
-        if "/kql/" not in f.file:
+        if not any(x in f.file for x in SCOPE):
             continue
         push = [e for e in f.calls_named(r"eq_field$") if e.args and "state" in cstrs(f, e.args[0])]
         hist = f.calls_named(r"::is_historical$")
